@@ -75,6 +75,12 @@ type customErr struct{ msg string }
 
 func (e *customErr) Error() string { return e.msg }
 
+// constErr is the sentinel-error idiom: an error type of string kind, declared as a value type; its zero value
+// is still a non-nil error.
+type constErr string
+
+func (e constErr) Error() string { return string(e) }
+
 type panicStruct struct{ N int }
 
 func panicValue(v int) interface{} {
@@ -266,6 +272,29 @@ func scriptedHandler(cr **chainRun, i int, h *Sx) flamego.Handler {
 	}
 	fast := h.Field("fast") != nil && h.Field("fast").Args()[0].Atom != "0"
 	named := h.Field("named") != nil && h.Field("named").Args()[0].Atom == "1"
+	if h.Field("named") != nil && h.Field("named").Args()[0].Atom == "2" {
+		// a non-nil error whose declared type is a value type of string kind (the empty one included)
+		switch shape {
+		case "err,":
+			if ret[0].Args()[0].Atom != "nil" {
+				return func(c flamego.Context) constErr { body(c); return constErr(ret[0].Args()[0].Bytes()) }
+			}
+		case "int,err,":
+			if ret[1].Args()[0].Atom != "nil" {
+				return func(c flamego.Context) (int, constErr) {
+					body(c)
+					return ret[0].Args()[0].Int(), constErr(ret[1].Args()[0].Bytes())
+				}
+			}
+		case "str,err,":
+			if ret[1].Args()[0].Atom != "nil" {
+				return func(c flamego.Context) (string, constErr) {
+					body(c)
+					return ret[0].Args()[0].Bytes(), constErr(ret[1].Args()[0].Bytes())
+				}
+			}
+		}
+	}
 	if named { // the same shapes through named types: type X []byte (json.RawMessage), type S string
 		switch shape {
 		case "str,":
@@ -615,7 +644,7 @@ func genHandler(rng *rand.Rand, maxNext int, allowPanic, allowCancel, richRet bo
 		at := rng.Intn(len(acts) + 1)
 		acts = append(acts[:at:at], append([]*Sx{T("wrap")}, acts[at:]...)...)
 	}
-	return T("h", T("acts", acts...), T("ret", genRet(rng, richRet)...), T("fast", B(rng.Intn(2) == 0)), T("named", B(rng.Intn(4) == 0)))
+	return T("h", T("acts", acts...), T("ret", genRet(rng, richRet)...), T("fast", B(rng.Intn(2) == 0)), T("named", I([]int{0, 0, 0, 1, 2}[rng.Intn(5)])))
 }
 
 func chainInput(rng *rand.Rand, mw, route []*Sx, groups [][]*Sx, action *Sx, reps int) *Sx {
